@@ -500,15 +500,32 @@ func init() {
 	_ = bytes.Repeat
 }
 
-// reMatch runs the real regexp engine on a concretised subject and returns
+// reMatch runs the real regexp engine on a concrete subject (the symbolic
+// model otherwise) and returns
 // the submatch strings as interpreter values (nil: no match).
 func (i *interpreter) reMatch(re *regexp.Regexp, subj value) []value {
-	s := i.conc(subj).(string)
-	m := re.FindStringSubmatch(s)
-	if m == nil {
+	if s, ok := subj.(string); ok {
+		m := re.FindStringSubmatch(s)
+		if m == nil {
+			return nil
+		}
+		return strSlice(m).([]value)
+	}
+	// symbolic subject: the regexp model (rxmodel.go)
+	idx := i.rxFind(re, subj)
+	if idx == nil {
 		return nil
 	}
-	return strSlice(m).([]value)
+	c := strCells(subj)
+	out := make([]value, len(idx)/2)
+	for j := range out {
+		if idx[2*j] < 0 {
+			out[j] = ""
+		} else {
+			out[j] = mkStr(c[idx[2*j]:idx[2*j+1]:idx[2*j+1]])
+		}
+	}
+	return out
 }
 
 // sprintf is a small fmt.Sprintf for the verbs go.sh uses; symbolic
